@@ -5,7 +5,7 @@ from bt_impl import spec_str, spec_nodes
 
 KEYS = ["/a", "/b", "/c", "/ns/d"]
 OBJ_KEY = "/o"      # only ever holds attribute-bag objects: nested writers (set / StatusToBlackboard) target it
-OBJ_VALS = ["o{p=i:1}", "o{p=i:2,q=o{r=i:0}}", "o{q=o{r=i:0}}", "o{q=o{r=i:1},p=b:1}"]
+OBJ_VALS = ["o{p=i:1}", "o{p=i:2,q=o{r=i:0}}", "o{q=o{r=i:0}}", "o{q=o{r=i:1},p=b:1}", "o{p=n,q=o{r=n}}"]   # the last: attributes that exist and hold None
 VALS = ["i:0", "i:1", "i:2", "b:1", "b:0", "s:S", "s:F", "s:R", "n", "t:x", "o{p=i:1}", "o{p=i:2,q=o{r=s:S}}",
         "o{q=o{r=i:0}}"]
 PATHS = ["-", "-", "-", "p", "q.r", "q", "zz"]
@@ -28,6 +28,7 @@ class Profile(object):
         self.bb = False            # blackboard leaves / s2b decorator allowed
         self.invalid_policy = 0.03
         self.p_stop = 0.15
+        self.p_setup = 0.0            # per-operation probability of a BehaviourTree.setup() in mid-history
         self.p_inner_stop = 0.0       # share of the stop operations that hit a random inner behaviour instead of the root
         self.p_poke = 0.0
         self.min_ops, self.max_ops = 1, 12
@@ -222,6 +223,8 @@ def gen_ops(rng, prof, spec):
         ops.append("setbb %s %s" % (OBJ_KEY, rng.choice(OBJ_VALS[1:])))
     for _ in range(n):
         r = rng.random()
+        if prof.p_setup and len(ops) > 1 and rng.random() < prof.p_setup:
+            ops.append("setup")      # setting a tree up again is legal at any time (e.g. after subtree surgery)
         if r < prof.p_stop and len(ops) > 1:
             if rng.random() < prof.p_inner_stop:
                 # an external stop(INVALID) on a behaviour inside the tree (any user may call it)
